@@ -190,9 +190,11 @@ OnFlood ==
   /\ UNCHANGED <<sc, up, tracker, nextId, pend, evp, db, exp, cur>> /\ Step
 \* (the flooded session keeps executing its backlog concurrently with everything else, so its reads may
 \* appear anywhere; they are reads of the flooded block only)
+\* (`reads_rep`: the harness counts a read series that is identical to the one logged just before it, with nothing in
+\* between, instead of logging it again -- only a flooded session produces such runs)
 OnFloodReads ==
   /\ \/ Is("flood_done")
-     \/ Is("reads") /\ Ev.t = 2 /\ Ev.s + Ev.n <= 125
+     \/ (Is("reads") \/ Is("reads_rep")) /\ Ev.t = 2 /\ Ev.s + Ev.n <= 125
   /\ (\E c \in 0..63 : conn[c].st = "flooding")
   /\ UNCHANGED <<sc, up, tracker, nextId, conn, pend, evp, db, exp, cur>> /\ Step
 
